@@ -67,3 +67,41 @@ func init() {
 		Assumptions: commonAssumptions,
 	})
 }
+
+func init() {
+	register("C07", &propDef{
+		Rules: []ruleDef{
+			{"C07.guarded", ruleGuarded, ""},
+			{"C07.one-section", ruleOneSection, ""},
+			{"C07.balanced", ruleBalanced, ""},
+			{"C07.fs-readers-pure", ruleFSReadersPure, ""},
+		},
+		Explanation: "Decides only the critical-section structure linearizability needs, with a path-sensitive lockset analysis on the call-string-cloned interprocedural graph of every API entry: (guarded) every read/write of index, datalog, segment-meta and file-size state and every fs.File call on a shared index/segment file reachable from an entry is made with DB.mu held in the required mode; (one-section) Put, Delete, Get, GetAppend, Has, Count, Sync and one iterator refill never release DB.mu and take it again; (balanced) every entry returns with the lockset it was entered with. NOT decided: the existence of a linearization for every history.",
+		Assumptions: append([]string{"guarded-state table of DESIGN.md 2.2 (fields of index, datalog, segmentMeta, file.size; I/O on index and segment files)"}, commonAssumptions...),
+	})
+	register("C10", &propDef{
+		Rules: []ruleDef{
+			{"C10.guarded", ruleGuarded, ""},
+			{"C10.balanced", ruleBalanced, ""},
+			{"C10.lock-order", ruleLockOrder, ""},
+			{"C10.goroutine", ruleGoroutine, ""},
+			{"C10.fs-calls", ruleFSCalls, ""},
+			{"C10.fs-readers-pure", ruleFSReadersPure, ""},
+			{"C10.copy-inside-lock", ruleC14CopyInsideLock, ""},
+		},
+		Explanation: "Decides the lock discipline race- and deadlock-freedom need: (guarded) as C07; (balanced) no lock leaked or double-released on any path, error paths included; (lock-order) the held->acquired graph over maintenanceMu, ItemIterator.mu, DB.mu is acyclic, no re-entrant acquisition, no WaitGroup.Wait/channel operation while a lock is held; (goroutine) the only goroutine is registered with the WaitGroup before it starts, defers Done, leaves its loop on ctx.Done(), and Close cancels it, waits, then locks; (fs-calls) directory operations on the database's FileSystem are made under DB.mu; (fs-readers-pure) File methods documented as thread-safe (Slice, ReadAt, Stat) do not write receiver state. NOT decided: absence of panics/faults in general (bounds checks are not provable here), races on state outside the tables, progress.",
+		Assumptions: commonAssumptions,
+	})
+}
+
+func init() {
+	register("C14", &propDef{
+		Rules: []ruleDef{
+			{"C14.no-alias-out", ruleC14NoAliasOut, ""},
+			{"C14.no-retain-in", ruleC14NoRetainIn, ""},
+			{"C14.copy-inside-lock", ruleC14CopyInsideLock, ""},
+		},
+		Explanation: "Decides, within a whole-package field-based value-flow model (slicing, phis, tuples, struct fields, closure cells, parameters/returns through the call graph with VTA-resolved callbacks; append/copy semantics modelled; package pogreb uses neither unsafe nor reflection): (no-alias-out) memory returned by fs.File.Slice never reaches a result of an exported function and is never stored in any struct field; (no-retain-in) byte-slice parameters of exported functions are never stored in a struct field or package variable, encodeRecord returns a fresh buffer, fs Write/WriteAt implementations do not keep their buffer; (copy-inside-lock) every read of Slice memory (cloneBytes, append, copy, bytes.Equal) happens with DB.mu held on every path from every API entry. What is assumed is the flow model, not a sample of histories.",
+		Assumptions: append([]string{"value-flow model: no aliasing through third-party code; append copies byte elements; copy/bytes.Equal/hashing only consume"}, commonAssumptions...),
+	})
+}
